@@ -829,6 +829,14 @@ def hist_part(run, r, runner, n):
             tot += (h - ref[g]) ** 2
         return 0.5 * c["k"] * scale * tot
 
+    # the documented potential is read from the manual of the tree under test: 1/2 k M sum_g (...)^2 (after the repair of the
+    # equation) or 1/2 k integral (...)^2 dxi = 1/2 k width sum_g (...)^2 (mid-point rule)
+    try:
+        tex = open(os.path.join(V.REPO, "doc", "colvars-refman-main.tex"), errors="replace").read()
+    except Exception:
+        tex = ""
+    k0 = tex.find("label{eq:colvarbias_restraint_histogram}")
+    doc_scale_M = k0 >= 0 and "k M \\sum" in tex[k0:k0 + 300]
     ml, where = [], []
     for k, c in enumerate(cases):
         cs = impl.get(k)
@@ -856,9 +864,9 @@ def hist_part(run, r, runner, n):
                 fd = -(energy(c, ref, sig, xp, M) - energy(c, ref, sig, xm, M)) / (2 * hh)
                 if abs(fd - Fi[i]) > 1e-5 * max(1.0, abs(fd), abs(Fi[i])):
                     run.violation("potential:histogram:force", "values %r: force on value %d is %r, minus the derivative of the energy is %r" % (xs, i, Fi[i], fd), rp)
-            Edoc = energy(c, ref, sig, xs, c["width"])
+            Edoc = energy(c, ref, sig, xs, M if doc_scale_M else c["width"])
             if abs(E) > 1e-12 and not close(Edoc, o["E"], 1e-9):
-                run.violation("potential:histogram:energy-scale", "M %d values %r, width %r: energy %r, documented 1/2 k integral (h-h0)^2 = %r (ratio %r = M/width)" % (M, xs, c["width"], o["E"], Edoc, o["E"] / Edoc if Edoc else float("nan")), rp)
+                run.violation("potential:histogram:energy-scale", "M %d values %r, width %r: energy %r, the manual's equation gives %r (ratio %r = M/width)" % (M, xs, c["width"], o["E"], Edoc, o["E"] / Edoc if Edoc else float("nan")), rp)
             nz = nz or abs(o["E"]) > 1e-9
             ml.append("HIST %s %s %s %s %d %s %d %s" % (hx(c["k"]), hx(sig), hx(c["lower"]), hx(c["width"]), len(ref),
                                                       " ".join(hx(x) for x in ref), M, " ".join(hx(x) for x in xs)))
